@@ -470,6 +470,10 @@ pub proof fn lemma_goals_from_pointwise(a: Seq<Goal>, b: Seq<Goal>, m: VM)
 }
 
 // rules
+// TRUSTED(T1): rustc's derived Clone on Rule returns an equal value.
+pub assume_specification[ <Rule as Clone>::clone ](r: &Rule) -> (res: Rule)
+    ensures res == *r;
+
 pub open spec fn wf_rule(r: Rule) -> bool {
     r.head is SComplex && wf(r.head) && (r.body is Nil || wf_goal(r.body))
 }
